@@ -19,7 +19,7 @@ func init() {
 				"(TTL) the expiry stored is timeNow() + ttl seconds with ttl taken unchanged from the lookup, and the lookup's ttl is a true minimum over ALL answer records: a loop-carried value updated with the record's TTL only under 'first record' or 'current > record's TTL', by a comparison that every iteration passes through (no record is skipped, e.g. by an earlier continue), starting from the no-answer default; " +
 				"(NOFAIL) stores to a cache entry are dominated by 'the lookup returned no error', and a non-zero response code can only produce an error; " +
 				"(FRESH) a cached value is returned only under timeNow().Before(expiration), so a zero TTL is never served and expiry forces a new lookup; " +
-				"(SHARE) results handed out are shared with the cache: their only method, Targets, writes nothing reachable from them (C15.PURE) and RoundTrip filters a clone; " +
+				"(SHARE) results handed out are shared with the cache: their only method, Targets, writes nothing reachable from them (C15.PURE), RoundTrip filters a clone, and no sort/copy/append/element store works in place on the slice resolveOne returns (it is the cache's own); " +
 				"(RACE0) functions reachable from Resolve store to no package-level variable and to no Resolver field; the shared mutable state they touch is the LRU (internally locked, trusted) and the cacheValue fields (LOCK).",
 			Assumptions: []string{"hashicorp/golang-lru TwoQueueCache is safe for concurrent use", "sync.RWMutex semantics"},
 		},
@@ -201,6 +201,61 @@ func c16Rules(p *core.Prog, r *core.Run) {
 		}
 		r.Check("C16.SHARE", "clone:copies", fresh == 3, p.Pos(cl.Pos()), "clone() copies Address, HTTPS and Additional (%d fresh copies)", fresh)
 	}
+
+	// the slice resolveOne returns IS the cached one: nobody may reorder or overwrite it
+	fromCache := func(e *core.Expr) bool {
+		return e.Any(func(x *core.Expr) bool {
+			return x.Op == "call" && x.Fn != nil && (sameFn(x.Fn, one) || sameFn(x.Fn, noc)) || x.Op == "field" && x.Obj == res
+		})
+	}
+	nUse, nMut := 0, 0
+	for _, fn := range pkg {
+		for _, b := range fn.Blocks {
+			for _, in := range b.Instrs {
+				switch x := in.(type) {
+				case *ssa.Call:
+					cx := p.X(x)
+					var dst *core.Expr
+					switch {
+					case matches(`^(sort\.(Slice|SliceStable|Sort|Stable|Strings|Ints)|slices\.(Sort.*|Reverse|DeleteFunc|Delete|Compact.*|Insert|Replace|Grow|Clip))$`, cx.Name) && len(cx.Args) > 0:
+						dst = cx.Args[0]
+					case cx.Op == "call" && (cx.Name == "copy" || cx.Name == "clear" || cx.Name == "append") && len(cx.Args) > 0:
+						if _, isB := x.Call.Value.(*ssa.Builtin); isB {
+							dst = cx.Args[0]
+						}
+					}
+					if dst == nil {
+						continue
+					}
+					if fromCache(dst) {
+						nMut++
+						r.Check("C16.SHARE", "cached-slice-readonly:"+p.FuncName(fn)+":"+cx.Name, false, p.InstrPos(x), "%s works in place on the slice kept in the cache (%s): concurrent Resolve calls and earlier results share it", cx.Name, short(dst))
+					}
+				case *ssa.Store:
+					if ia, ok := x.Addr.(*ssa.IndexAddr); ok {
+						if base := p.X(ia.X); fromCache(base) {
+							nMut++
+							r.Check("C16.SHARE", "cached-slice-readonly:"+p.FuncName(fn)+":store", false, p.InstrPos(x), "an element of the slice kept in the cache is overwritten (%s)", short(base))
+						}
+					}
+				case *ssa.Range, *ssa.Index, *ssa.IndexAddr:
+					var base ssa.Value
+					switch y := x.(type) {
+					case *ssa.Range:
+						base = y.X
+					case *ssa.Index:
+						base = y.X
+					case *ssa.IndexAddr:
+						base = y.X
+					}
+					if fromCache(p.X(base)) {
+						nUse++
+					}
+				}
+			}
+		}
+	}
+	r.Check("C16.SHARE", "cached-slice-readonly", nMut == 0 && nUse >= 3, p.Pos(one.Pos()), "the slices handed out by resolveOne (the cache's own) are only read: %d element reads, %d in-place operations", nUse, nMut)
 
 	// --- RACE0
 	rs := p.Func(Ech, "(*Resolver).Resolve")
